@@ -4,7 +4,7 @@ Shape: history monitor with a shadow model (+ icontract invariants on kafe2.core
 
 A case is a JSON list of operations on one container: add_error / add_matrix_error (cov | cor+err_val, absolute |
 relative, correlation 0 / (0,1) / 1, scalar / constant / varying / zero-containing errors), disable_error,
-enable_error, value changes (data / x / y setters, histogram fill / rebin, model `parameters` / `x` setters) and reads
+enable_error, value changes (data / x / y setters, histogram fill / rebin / set_bins, model `parameters` / `x` setters) and reads
 (err, cov_mat, cor_mat, cov_mat_inverse, get_total_error(axis), data) in random interleavings.  The shadow stores only
 the *declared* inputs (source specifications, enabled flags, current values) and recomputes
 
@@ -28,13 +28,17 @@ RULE = (
     "random history (<= 14 ops quick / <= 40 thorough, N <= 10) over {add_error, add_matrix_error, disable_error, enable_error, value "
     "change, read} on one of {IndexedContainer, XYContainer, HistContainer, Indexed/XY/HistParametricModel} (+ UnbinnedContainer refusal, "
     "+ direct CovMat histories every 12th case); the first cases of each shard enumerate all (container type x mutator kind x following "
-    "read) bigrams, each shard starting at its own offset. non-trivial = the history contains, each followed by a later uncertainty read, "
+    "read) bigrams, each shard starting at its own offset; every value-change stratum whose read is an uncertainty executes the probe "
+    "<relative source on axis A, total of A read (so that it is cached), value change that moves the values of A, uncertainty of A read with "
+    "nothing in between> (set stale_probes: container x value change x axis). "
+    "non-trivial = the history contains, each followed by a later uncertainty read, "
     "(a) a value change after a read after adding a relative source, or (b) a disable/enable pair of one source, or (c) >= 2 sources of "
     "different kind (simple / cov / cor x absolute / relative); distinct by hash of the executed case"
 )
 ASSUMPTIONS = [
     "only valid inputs are generated (err >= 0, correlation in [0, 1], symmetric PSD matrices, unit-diagonal correlation matrices); malformed inputs belong to C19",
-    "rebin / x setter keep the number of points (sources of another size are an invalid specification)",
+    "rebin / x setter / set_bins keep the number of points (sources of another size are an invalid specification)",
+    "HistContainer.set_bins gets integral heights >= 0 (int or float typed, with or without underflow / overflow); after it fill / rebin are refused by design (documented RuntimeError) and are not generated any more, set_bins may be repeated",
     "histogram entries never coincide with a bin edge (edge semantics belong to C12); model values are recomputed by the shadow with the same closed formula (quadrature accuracy belongs to C13)",
     "relative sources with zero reference values are generated (sigma = 0 there); conversions that divide by the reference (relative size of an absolute source) are not read",
     "cov_mat_inverse @ cov ~ I (both orders) within max(1e-9, 1e-15*cond) * sum|terms| + 1e-12, compared only when cond(shadow cov) <= 1e8; None is accepted only when the shadow matrix is numerically singular (cond >= 1e13); in between the read is counted as discarded",
@@ -87,6 +91,7 @@ ANCHORS = [
     ("kafe2.fit.histogram.container", "HistContainer._fill_unprocessed"),
     ("kafe2.fit.histogram.container", "HistContainer.fill"),
     ("kafe2.fit.histogram.container", "HistContainer.rebin"),
+    ("kafe2.fit.histogram.container", "HistContainer.set_bins"),
     ("kafe2.fit._base.model", "ParametricModelBaseMixin.parameters"),
     ("kafe2.fit.indexed.model", "IndexedParametricModel._recalculate"),
     ("kafe2.fit.xy.model", "XYParametricModel._recalculate"),
@@ -99,13 +104,30 @@ ADD_KINDS = ["add_error.abs", "add_error.rel", "add_matrix.cov.abs", "add_matrix
 VALUE_CHANGES = {
     "indexed": ["set_data"],
     "xy": ["set_x", "set_y", "set_data"],
-    "hist": ["fill", "rebin"],
+    "hist": ["fill", "rebin", "set_bins"],
     "indexed_model": ["set_parameters"],
     "xy_model": ["set_parameters", "set_x"],
     "hist_model": ["set_parameters"],
 }
 READS = ["err", "cov_mat", "cor_mat", "cov_mat_inverse", "total_error", "data"]
 ALL_VC = sorted(set(v for vs in VALUE_CHANGES.values() for v in vs))
+
+
+# which axes of the stored values a value change moves (xy model: new support points move the model values too)
+VC_AXES = {
+    ("indexed", "set_data"): (0,),
+    ("xy", "set_x"): (0,),
+    ("xy", "set_y"): (1,),
+    ("xy", "set_data"): (0, 1),
+    ("hist", "fill"): (0,),
+    ("hist", "rebin"): (0,),
+    ("hist", "set_bins"): (0,),
+    ("indexed_model", "set_parameters"): (0,),
+    ("xy_model", "set_parameters"): (1,),
+    ("xy_model", "set_x"): (0, 1),
+    ("hist_model", "set_parameters"): (0,),
+}
+STALE_PROBES = sorted("%s|%s|%d" % (c, v, a) for (c, v), axes in VC_AXES.items() for a in axes)
 
 
 def mutator_kinds(ctype):
@@ -145,7 +167,7 @@ def floors(tier):
         "ops": ["add_error", "add_matrix_error", "disable_error", "enable_error", "read"] + ALL_VC + ["covmat.set_mat", "covmat.iadd", "covmat.add", "covmat.rescale"],
         "reach": ["%s:%s" % a for a in ANCHORS],
         "strata": ["|".join(s) for s in all_strata()],
-        "sets": {"bigrams_executed": 300, "source_shapes": 30, "axis_specs": 4},
+        "sets": {"bigrams_executed": 300, "source_shapes": 30, "axis_specs": 4, "stale_probes": len(STALE_PROBES)},
         "distinct_nontrivial": 40000 if big else 2000,
     }
 
@@ -516,6 +538,9 @@ class State:
         self.last_vc = {0: None, 1: None}  # last value-change kind per axis
         self.vc_kinds = []  # all value changes executed so far
         self.reads = 0
+        # per axis: the total was read while an enabled relative source sat on the axis and nothing was changed since (= cached)
+        self.cached_rel = {0: False, 1: False}
+        self.probe = None  # (value-change kind, op index, axes whose cached total had a relative source) of the last value change
 
 
 def mut_kind(op):
@@ -545,6 +570,7 @@ def n_viol(ctx):
 
 
 # ------------------------------------------------------------------ classification of a divergence (mechanism keys)
+KEY_SET_BINS = "C02/hist-set_bins-keeps-relative-reference"
 STALE_KEYS = {
     "hist": "C02/hist-relative-source-ignores-pending-fill",
     "xy": "C02/xy-data-setter-keeps-relative-reference",
@@ -609,6 +635,8 @@ def _stale_predicate(st):
         return None
     if ct == "xy" and "set_data" not in st.vc_kinds:
         return None
+    if ct == "hist" and st.last_vc[0] == "set_bins":
+        return KEY_SET_BINS  # the heights were replaced as a whole; the reference is the one from before that call
     if ct == "hist" and not any(k in ("fill", "rebin") for k in st.vc_kinds):
         return None
     if ct in ("indexed_model", "xy_model") and not st.vc_kinds:
@@ -709,6 +737,13 @@ def apply_op(ctx, st, op, i):
             obj.fill(list(a["entries"]))
         elif k == "rebin":
             obj.rebin(list(a["edges"]))
+        elif k == "set_bins":
+            h = np.array(a["heights"], dtype=float if a["float"] else int)
+            h = h if a["as_array"] else h.tolist()
+            if a["underflow"] is None:
+                obj.set_bins(h)
+            else:
+                obj.set_bins(h, underflow=a["underflow"], overflow=a["overflow"])
         elif k == "set_parameters":
             obj.parameters = list(a["parameters"])
         else:
@@ -721,6 +756,9 @@ def apply_op(ctx, st, op, i):
     except Exception as e:  # a valid operation was refused / crashed
         raised = e
         tb = fmt_exc()
+    if k not in ("add_error", "add_matrix_error", "disable_error", "enable_error"):
+        st.probe = (k, i, tuple(ax for ax in VC_AXES[(sh.ctype, k)] if st.cached_rel[ax]))
+    st.cached_rel = {0: False, 1: False}  # every mutator discards (or has to discard) the cached totals
     ok = ctx.check(
         "op.accepted",
         raised is None,
@@ -793,6 +831,10 @@ def apply_op(ctx, st, op, i):
             sh.edges = np.asarray(a["edges"], dtype=float)
             sh.set_vals(0, hist_counts(sh.edges, sh.entries))
             st.last_vc[0] = k
+        elif k == "set_bins":
+            sh.entries = []  # the raw entries are given up: the heights are the declared contents from now on
+            sh.set_vals(0, a["heights"])
+            st.last_vc[0] = k
         elif k == "set_parameters":
             sh.params = list(a["parameters"])
             vax = 1 if sh.ctype == "xy_model" else 0
@@ -852,6 +894,10 @@ def do_read(ctx, st, op, i):
     # bookkeeping for the non-triviality rule
     fl = st.flags
     if what != "data":
+        if any(s["enabled"] and s["rel"] and s["axis"] == ax for s in sh.sources):
+            if st.probe is not None and st.probe[1] == i - 1 and ax in st.probe[2]:
+                ctx.add_to_set("stale_probes", "%s|%s|%d" % (sh.ctype, st.probe[0], ax))
+            st.cached_rel[ax] = True
         if fl["rel_added"]:
             fl["read_after_rel"] = True
         if fl["vc_after_read_after_rel"]:
@@ -991,6 +1037,8 @@ class Gen:
         self.past_reads = []
         self.k = 0
         self.is_xy = ctype in ("xy", "xy_model")
+        self.manual = False  # hist: set_bins was called, fill / rebin are refused from now on
+        self.allow_set_bins = True
         if ctype == "hist":
             self.range = (init["range"][0], init["range"][1]) if init["edges"] is None else (init["edges"][0], init["edges"][-1])
 
@@ -1067,6 +1115,28 @@ class Gen:
             e = e + np.arange(n + 1) * 1e-3 * w  # strictly increasing
             self.range = (float(e[0]), float(e[-1]))
             return ["rebin", {"edges": [float(x) for x in e]}]
+        if kind == "set_bins":
+            mode = int(rng.integers(0, 4))
+            if mode == 0:
+                h = rng.integers(0, 6, n)  # small counts, zeros and duplicates
+            elif mode == 1:
+                h = rng.integers(1, 2000, n)
+            elif mode == 2:
+                h = rng.integers(0, 50, n) * 10 ** int(rng.integers(0, 5))
+            else:
+                h = rng.poisson(float(rng.uniform(0.5, 30.0)), n)
+            uo = rng.random() < 0.4
+            self.manual = True
+            return [
+                "set_bins",
+                {
+                    "heights": [float(x) for x in h],
+                    "float": bool(rng.random() < 0.3),
+                    "as_array": bool(rng.random() < 0.5),
+                    "underflow": int(rng.integers(0, 10)) if uo else None,
+                    "overflow": int(rng.integers(0, 10)) if uo else None,
+                },
+            ]
         if kind == "set_parameters":
             npar = len(self.init["parameters"])
             p = rng.uniform(-3.0, 3.0, npar)
@@ -1107,8 +1177,15 @@ class Gen:
         if r < 0.82:
             op = self.enable() if rng.random() < 0.7 else self.disable()
             return op or self.disable() or self.enable() or self.read()
+        return self.value_change(self.pick_vc())
+
+    def pick_vc(self):
         vcs = VALUE_CHANGES[self.ctype]
-        return self.value_change(vcs[int(rng.integers(0, len(vcs)))])
+        if self.manual:
+            vcs = ["set_bins"]
+        elif "set_bins" in vcs and (not self.allow_set_bins or self.rng.random() < 0.7):
+            vcs = [v for v in vcs if v != "set_bins"]  # set_bins ends fill / rebin for good: keep it the rarer choice
+        return vcs[int(self.rng.integers(0, len(vcs)))]
 
 
 def gen_init(rng, ctype, n):
@@ -1149,10 +1226,14 @@ def gen_case(rng, tier, idx, stratum=None):
         ops.append(g.value_change("fill"))
     if stratum:
         _, mk, rw = stratum
+        g.allow_set_bins = mk not in ("fill", "rebin")  # these two must still be accepted when their turn comes
         for _ in range(int(rng.integers(0, 4))):
             ops.append(g.random_op())
         ax = int(rng.integers(0, 2)) if g.is_xy else None
-        if mk in ("set_x", "set_parameters") and ctype == "xy_model":
+        probe = mk in ALL_VC and rw != "data"
+        if probe and len(VC_AXES[(ctype, mk)]) == 2:
+            ax = READS.index(rw) % 2  # both axes in every shard, whatever the random numbers
+        elif mk in ("set_x", "set_parameters") and ctype == "xy_model":
             ax = 0 if (mk == "set_x" and rng.random() < 0.5) else 1
         elif mk == "set_x":
             ax = 0
@@ -1171,12 +1252,17 @@ def gen_case(rng, tier, idx, stratum=None):
                 ops.append(g.read(None, ax))
         if mk in ("disable_error",) and rng.random() < 0.7:
             ops.append(g.read(rw, ax))
-        if mk in ALL_VC and rng.random() < 0.8:
+        if probe:
+            # relative source on the axis, its total read (cached), the value change, the uncertainty again straight away
+            ops.append(g.add(["add_error.rel", "add_matrix.cov.rel", "add_matrix.cor.rel"][int(rng.integers(0, 3))], ax))
+            ops.append(g.read(rw if rng.random() < 0.5 else READS[int(rng.integers(0, 5))], ax))
+        elif mk in ALL_VC and rng.random() < 0.8:
             ops.append(g.add(["add_error.rel", "add_matrix.cov.rel", "add_matrix.cor.rel"][int(rng.integers(0, 3))], ax))
             if rng.random() < 0.8:
                 ops.append(g.read(rw if rng.random() < 0.5 else None, ax))
         ops.append(g.mutator(mk, ax if mk in ADD_KINDS else None))
-        ops.append(g.read(rw, ax if rng.random() < 0.85 else None))
+        ops.append(g.read(rw, ax if (probe or rng.random() < 0.85) else None))
+        g.allow_set_bins = True
         if mk == "disable_error" and rng.random() < 0.8:
             ops.append(g.enable())
             ops.append(g.read(rw, ax))
